@@ -1,5 +1,6 @@
 import Bclv.Proofs.DumpLoad
 import Bclv.Proofs.Bufio
+import Bclv.Proofs.DumpW
 import Bclv.Model.Vm
 /-!
 # C09 — bytecode dump and load round trip preserves the program
@@ -59,6 +60,21 @@ theorem load_dump_one_byte_reads (p : Prog) (h : p.WF) : loadR ((dump p).map fun
   · induction dump p with
     | nil => rfl
     | cons b bs ih => simp [ih]
+
+/-- **Dump succeeds**: written call by call through the 4096-byte buffered writer and the
+scratch slice (`Model/DumpW.lean`), `Dump` never indexes past the scratch slice — for
+string constants of any length — and what the destination receives, write after write, is
+exactly `dump p`. -/
+theorem dump_through_writer (p : Prog) :
+    ∃ writes, dumpW p = some writes ∧ writes.flatten = dump p ∧ ∀ c ∈ writes, c ≠ [] :=
+  dumpW_spec p
+
+/-- Writer and reader together: feeding `Load` the very writes `Dump` hands to its destination,
+one per read, gives the program back. -/
+theorem load_of_dump_writes (p : Prog) (h : p.WF) :
+    ∃ writes, dumpW p = some writes ∧ loadR writes = .ok p := by
+  obtain ⟨w, e, hcat, hne⟩ := dumpW_spec p
+  exact ⟨w, e, load_dump_chunked p h w hne hcat⟩
 
 /-- The unsigned varint round trip for every 64-bit value, in particular across the
 size classes 240/241, 2287/2288, 67823/67824, 2^24, 2^32, … -/
